@@ -433,6 +433,13 @@ def gen_remap(rng):
                          "overwrite": True})
     c = {"kind": "remap", "deps": deps, "files": texts, "rules": [[r for r in f] for f in files], "adds": arg_adds,
          "mode": rng.choice([None, None, "create", "install"])}
+    if not arg_adds and rng.random() < 0.25:
+        # object sequences: another manifest was remapped earlier in this process, with other manifest.remap files, by a call
+        # without a mapping argument (Manifest.fromFile / Repositories.install do that): it must not influence this call
+        p = rng.choice(names)
+        c["earlier"] = {"files": [[p + rng.choice(["", ":any", ":1.0", ":2.0"]) + "   " + rng.choice(["5.5", "None", "other:6.6"])],
+                                  ["%s   7.7" % rng.choice(names)]],
+                        "deps": deps[:2]}
     if known or any("ummy" in l for t in texts for l in l_iter(t)):
         c["known"] = sorted(set(known))
         if rng.random() < 0.7:
@@ -649,6 +656,23 @@ def impl_remap(c, E=None):
             f.write("".join(l + "\n" for l in ls))
         dirs.append(d)
     saved = hooks.customisationDirs
+    if "earlier" in c:
+        edirs = []
+        for i, ls in enumerate(c["earlier"]["files"]):
+            d = os.path.join(E._c18root, "earlier%d" % i)
+            os.makedirs(d, exist_ok=True)
+            with open(os.path.join(d, "manifest.remap"), "w", encoding="utf-8") as f:
+                f.write("".join(l + "\n" for l in ls))
+            edirs.append(d)
+        hooks.customisationDirs = edirs
+        try:
+            man0 = server.Manifest("earlier", "1.0", eupsenv=E, verbosity=-1, log=open(os.devnull, "w"))
+            for d in c["earlier"]["deps"]:
+                man0.addDependency(d["product"], d["version"], d["flavor"], d["tablefile"], d["instDir"], d["distId"], d["isOpt"],
+                                   d["recurse"], list(d["extra"]))
+            man0.remapEntries(mode=c["mode"])
+        except Exception:  # noqa
+            pass
     hooks.customisationDirs = dirs
     try:
         man = server.Manifest("top", "1.0", eupsenv=E, verbosity=-1, log=open(os.devnull, "w"))
@@ -656,7 +680,10 @@ def impl_remap(c, E=None):
             man.addDependency(d["product"], d["version"], d["flavor"], d["tablefile"], d["instDir"], d["distId"], d["isOpt"],
                               d["recurse"], list(d["extra"]))
         try:
-            man.remapEntries(mapping=build_mapping(c["adds"]), mode=c["mode"])
+            if "earlier" in c:
+                man.remapEntries(mode=c["mode"])          # no mapping argument, like the earlier call
+            else:
+                man.remapEntries(mapping=build_mapping(c["adds"]), mode=c["mode"])
         except Exception as e:  # noqa
             return {"error": "EXC:" + type(e).__name__}
         return {"deps": [dep_dict(d) for d in man.getProducts()], "dump": dump_table(man.mapping._mapping), "declared": []}
@@ -1080,6 +1107,8 @@ def evaluate(ctx, cases):
             ctx.hist("mapping:inverse=%s" % ("ok" if isinstance(io_["inverse"], dict) else io_["inverse"]))
         elif kind == "remap":
             ctx.hist("remap:mode=%s" % c["mode"])
+            if "earlier" in c:
+                ctx.hist("remap:after-an-earlier-call-without-mapping-argument")
             if "known" in c:
                 ctx.hist("remap:dummy-case")
                 if io_.get("declared"):
@@ -1160,6 +1189,9 @@ def run(ctx):
     if h.get("mapseq:inverse-again-after-merge", 0) < 100:
         raise common.InfraError("degenerate distribution: inverse() taken, rules merged in, inverse() taken again with entries "
                                 "to undo: %d sequences" % h.get("mapseq:inverse-again-after-merge", 0))
+    if h.get("remap:after-an-earlier-call-without-mapping-argument", 0) < 60:
+        raise common.InfraError("degenerate distribution: %d remap cases preceded by an earlier call without a mapping argument"
+                                % h.get("remap:after-an-earlier-call-without-mapping-argument", 0))
     if h.get("remap:dummy-declared", 0) < 15:
         raise common.InfraError("degenerate distribution: the dummy branch of remapEntries declared a product in %d cases"
                                 % h.get("remap:dummy-declared", 0))
